@@ -23,13 +23,20 @@ import (
 	"io"
 	"math/big"
 	"net"
+	"runtime"
+	"runtime/debug"
 	"strconv"
 	"strings"
 	"sync"
+	"sync/atomic"
 	"time"
 
 	"github.com/valyala/fasthttp"
 )
+
+// c21Excl: the "idle" scenario needs the process-wide clientConn pool (and the scheduler) for itself; everything
+// else runs under the read lock.
+var c21Excl sync.RWMutex
 
 var (
 	c21CertOnce sync.Once
@@ -81,6 +88,7 @@ type c21Reply struct {
 	loc    string
 	keep   bool
 	fail   bool // read the request, then close the connection without answering
+	hold   bool // announce the request on `started`, answer when holdCh(path) is closed
 }
 
 type c21Net struct {
@@ -88,7 +96,47 @@ type c21Net struct {
 	conns  []*c21ConnRec
 	script map[string]c21Reply
 	wg     sync.WaitGroup
+
+	// the "idle" scenario: held responses and a gate in the client side's Close
+	started     chan string
+	holds       map[string]chan struct{}
+	gateCloses  bool
+	closeArmed  atomic.Bool
+	closeEnter  chan struct{}
+	closeLetGo  chan struct{}
 }
+
+func (n *c21Net) holdCh(path string) chan struct{} {
+	n.mu.Lock()
+	defer n.mu.Unlock()
+	if n.holds == nil {
+		n.holds = map[string]chan struct{}{}
+	}
+	if n.holds[path] == nil {
+		n.holds[path] = make(chan struct{})
+	}
+	return n.holds[path]
+}
+
+// c21GateConn: the first Close that happens while the gate is armed blocks until it is let go (a slow Close).
+type c21GateConn struct {
+	net.Conn
+	n *c21Net
+}
+
+func (c *c21GateConn) Close() error {
+	if c.n.closeArmed.CompareAndSwap(true, false) {
+		close(c.n.closeEnter)
+		select {
+		case <-c.n.closeLetGo:
+		case <-time.After(c21Patience):
+		}
+	}
+	return c.Conn.Close()
+}
+
+// c21Patience: how long a scripted step may take before the scenario is abandoned as inconclusive (never as a violation)
+const c21Patience = 30 * time.Second
 
 func c21HostPart(addr string) string {
 	if strings.HasPrefix(addr, "[") {
@@ -223,13 +271,20 @@ func (n *c21Net) dialAs(owner int, addr string) (net.Conn, error) {
 	n.mu.Unlock()
 	n.wg.Add(1)
 	go n.serve(rec, srv)
+	if n.gateCloses {
+		return &c21GateConn{cli, n}, nil
+	}
 	return cli, nil
 }
 
 func (n *c21Net) serve(rec *c21ConnRec, raw net.Conn) {
 	defer n.wg.Done()
 	defer raw.Close()
-	raw.SetDeadline(time.Now().Add(20 * time.Second))
+	if n.gateCloses {
+		raw.SetDeadline(time.Now().Add(5 * time.Minute))
+	} else {
+		raw.SetDeadline(time.Now().Add(20 * time.Second))
+	}
 	br := bufio.NewReader(raw)
 	first, err := br.Peek(1)
 	if err != nil {
@@ -269,6 +324,16 @@ func (n *c21Net) serve(rec *c21ConnRec, raw net.Conn) {
 		}
 		if rp.fail {
 			return
+		}
+		if rp.hold {
+			select {
+			case n.started <- path:
+			default:
+			}
+			select {
+			case <-n.holdCh(path):
+			case <-time.After(c21Patience):
+			}
 		}
 		var b bytes.Buffer
 		fmt.Fprintf(&b, "HTTP/1.1 %d S\r\n", rp.status)
@@ -370,6 +435,10 @@ func c21Decode(a [][]byte) (wt bool, mode, hook byte, hcs []c21HCSpec, ops []c21
 	n := 0
 	for _, raw := range a[2:] {
 		s := string(raw)
+		if s == "K" { // CloseIdleConnections on the Client and on every caller-made HostClient
+			ops = append(ops, c21Op{kind: 'K', hc: -1})
+			continue
+		}
 		if len(s) < 3 || s[1] != ' ' {
 			return
 		}
@@ -556,7 +625,21 @@ func c21Ops(a [][]byte) *Case {
 		picked int
 	}
 	obs := make([]opObs, len(ops))
+	c21Excl.RLock()
+	rlocked := true
+	defer func() {
+		if rlocked { // a panic inside the client code must not leave the lock behind
+			c21Excl.RUnlock()
+		}
+	}()
 	for i, op := range ops {
+		if op.kind == 'K' {
+			cl.CloseIdleConnections()
+			for _, hc := range hcs {
+				hc.CloseIdleConnections()
+			}
+			continue
+		}
 		req := fasthttp.AcquireRequest()
 		resp := fasthttp.AcquireResponse()
 		req.SetRequestURI(op.hops[0].url + op.hops[0].path)
@@ -588,6 +671,8 @@ func c21Ops(a [][]byte) *Case {
 	for _, hc := range hcs {
 		hc.CloseIdleConnections()
 	}
+	rlocked = false
+	c21Excl.RUnlock()
 	done := make(chan struct{})
 	go func() { nw.wg.Wait(); close(done) }()
 	select {
@@ -612,6 +697,11 @@ func c21Ops(a [][]byte) *Case {
 	}
 	var sents []sent
 	for i, op := range ops {
+		if op.kind == 'K' {
+			margs = append(margs, B("K"))
+			implParts = append(implParts, "-")
+			continue
+		}
 		stopped := false
 		for j, h := range op.hops {
 			var u fasthttp.URI
@@ -743,7 +833,7 @@ func c21Ops(a [][]byte) *Case {
 		}
 		// a HostClient with a mismatching IsTLS refuses with an error
 		for i, op := range ops {
-			if op.kind == 'C' {
+			if op.kind == 'C' || op.kind == 'K' {
 				continue
 			}
 			hcIdx := op.hc
@@ -780,6 +870,264 @@ func c21Ops(a [][]byte) *Case {
 	}}
 }
 
+// c21Idle: CloseIdleConnections with slow Closes, running while in-flight requests of the same HostClient finish and
+// put their connections back, while another HostClient (of the other kind: plaintext vs TLS) dials, followed by further
+// requests.  args: one string "side n pre other after via wt": side T|P (the HostClient whose idle connections are
+// closed is the https / the http one), n requests in flight, pre of them finished before CloseIdleConnections starts,
+// `other` concurrent requests through the other HostClient afterwards, `after` further requests through the first,
+// via C (one Client, two host names) or H (two caller-made HostClients), wt 0|1.
+// Every step waits for its own completion signal; a step that does not complete within c21Patience makes the case
+// inconclusive.  Judged only by what the peers received on which connection.
+func c21Idle(a [][]byte) *Case {
+	if len(a) != 1 {
+		return nil
+	}
+	f := strings.Fields(string(a[0]))
+	if len(f) != 7 || (f[0] != "T" && f[0] != "P") || (f[5] != "C" && f[5] != "H") || (f[6] != "0" && f[6] != "1") {
+		return nil
+	}
+	var nums [4]int
+	for i := range nums {
+		v, err := strconv.Atoi(f[1+i])
+		if err != nil || v < 0 || v > 6 {
+			return nil
+		}
+		nums[i] = v
+	}
+	n, pre, other, after := nums[0], nums[1], nums[2], nums[3]
+	if n < 1 || pre < 1 || pre > n {
+		return nil
+	}
+	sideTLS := f[0] == "T"
+	c21ServerConfig()
+
+	c21Excl.Lock()
+	defer c21Excl.Unlock()
+	// the clientConn wrappers live in a process-wide sync.Pool: one P and no GC make what is put there findable
+	defer runtime.GOMAXPROCS(runtime.GOMAXPROCS(1))
+	defer debug.SetGCPercent(debug.SetGCPercent(-1))
+
+	nw := &c21Net{script: map[string]c21Reply{}, started: make(chan string, 64), gateCloses: true,
+		closeEnter: make(chan struct{}), closeLetGo: make(chan struct{})}
+	var wto time.Duration
+	if f[6] == "1" {
+		wto = 20 * time.Second
+	}
+	tcfg := &tls.Config{RootCAs: c21Roots}
+	sideURL, otherURL := "http://a.test", "https://b.test"
+	sideAddr, otherAddr := "a.test:80", "b.test:443"
+	if sideTLS {
+		sideURL, otherURL = "https://a.test", "http://b.test"
+		sideAddr, otherAddr = "a.test:443", "b.test:80"
+	}
+	type doer interface {
+		Do(req *fasthttp.Request, resp *fasthttp.Response) error
+	}
+	var sideC, otherC doer
+	var closeIdle, closeAll func()
+	if f[5] == "C" {
+		cl := &fasthttp.Client{Dial: nw.dial, TLSConfig: tcfg, ReadTimeout: 2 * c21Patience, WriteTimeout: wto,
+			MaxIdleConnDuration: time.Hour, MaxIdemponentCallAttempts: 1, NoDefaultUserAgentHeader: true}
+		sideC, otherC = cl, cl
+		closeIdle, closeAll = cl.CloseIdleConnections, cl.CloseIdleConnections
+	} else {
+		mk := func(addr string, isTLS bool) *fasthttp.HostClient {
+			return &fasthttp.HostClient{Addr: addr, IsTLS: isTLS, Dial: nw.dial, TLSConfig: tcfg, ReadTimeout: 2 * c21Patience,
+				WriteTimeout: wto, MaxIdleConnDuration: time.Hour, MaxIdemponentCallAttempts: 1, NoDefaultUserAgentHeader: true}
+		}
+		hs, ho := mk(sideAddr, sideTLS), mk(otherAddr, !sideTLS)
+		sideC, otherC = hs, ho
+		closeIdle = hs.CloseIdleConnections
+		closeAll = func() { hs.CloseIdleConnections(); ho.CloseIdleConnections() }
+	}
+	seq := 0
+	type reqInfo struct {
+		path  string
+		https bool
+		addr  string
+	}
+	var sentReqs []reqInfo
+	var errsMu sync.Mutex
+	var errs, panics []string
+	start := func(c doer, url string, https bool, addr string, hold, keep bool) (string, chan struct{}) {
+		seq++
+		path := fmt.Sprintf("/i%d", seq)
+		nw.mu.Lock()
+		nw.script[path] = c21Reply{status: 200, keep: keep, hold: hold}
+		nw.mu.Unlock()
+		sentReqs = append(sentReqs, reqInfo{path, https, addr})
+		done := make(chan struct{})
+		go func() {
+			defer close(done)
+			defer func() {
+				if e := recover(); e != nil { // as in Build: a panic of the implementation is reported, not fatal
+					errsMu.Lock()
+					panics = append(panics, fmt.Sprintf("%s: %v", path, e))
+					errsMu.Unlock()
+				}
+			}()
+			req := fasthttp.AcquireRequest()
+			resp := fasthttp.AcquireResponse()
+			req.SetRequestURI(url + path)
+			if err := c.Do(req, resp); err != nil {
+				errsMu.Lock()
+				errs = append(errs, path+": "+err.Error())
+				errsMu.Unlock()
+			}
+			fasthttp.ReleaseRequest(req)
+			fasthttp.ReleaseResponse(resp)
+		}()
+		return path, done
+	}
+	wait := func(ch <-chan struct{}) bool {
+		select {
+		case <-ch:
+			return true
+		case <-time.After(c21Patience):
+			return false
+		}
+	}
+	waitStarted := func() bool {
+		select {
+		case <-nw.started:
+			return true
+		case <-time.After(c21Patience):
+			return false
+		}
+	}
+	ok := func() bool {
+		// the other HostClient exists (and has no connection) before anything else happens
+		if _, d := start(otherC, otherURL, !sideTLS, otherAddr, false, false); !wait(d) {
+			return false
+		}
+		paths := make([]string, n)
+		dones := make([]chan struct{}, n)
+		for i := 0; i < n; i++ {
+			paths[i], dones[i] = start(sideC, sideURL, sideTLS, sideAddr, true, true)
+			if !waitStarted() {
+				return false
+			}
+		}
+		for i := 0; i < pre; i++ {
+			close(nw.holdCh(paths[i]))
+			if !wait(dones[i]) {
+				return false
+			}
+		}
+		nw.closeArmed.Store(true)
+		closeDone := make(chan struct{})
+		go func() { closeIdle(); close(closeDone) }()
+		if !wait(nw.closeEnter) {
+			return false
+		}
+		for i := pre; i < n; i++ {
+			close(nw.holdCh(paths[i]))
+			if !wait(dones[i]) {
+				return false
+			}
+		}
+		close(nw.closeLetGo)
+		if !wait(closeDone) {
+			return false
+		}
+		var op []string
+		var od []chan struct{}
+		for i := 0; i < other; i++ {
+			p, d := start(otherC, otherURL, !sideTLS, otherAddr, true, true)
+			if !waitStarted() {
+				return false
+			}
+			op, od = append(op, p), append(od, d)
+		}
+		for i := range op {
+			close(nw.holdCh(op[i]))
+			if !wait(od[i]) {
+				return false
+			}
+		}
+		for i := 0; i < after; i++ {
+			if _, d := start(sideC, sideURL, sideTLS, sideAddr, false, true); !wait(d) {
+				return false
+			}
+		}
+		return true
+	}()
+	// let everything go, whatever state the scenario ended in
+	nw.closeArmed.Store(false)
+	select {
+	case <-nw.closeLetGo:
+	default:
+		close(nw.closeLetGo)
+	}
+	for i := 1; i <= seq; i++ {
+		ch := nw.holdCh(fmt.Sprintf("/i%d", i))
+		select {
+		case <-ch:
+		default:
+			close(ch)
+		}
+	}
+	func() {
+		defer func() {
+			if e := recover(); e != nil {
+				panics = append(panics, fmt.Sprintf("final CloseIdleConnections: %v", e))
+			}
+		}()
+		closeAll()
+	}()
+	done := make(chan struct{})
+	go func() { nw.wg.Wait(); close(done) }()
+	select {
+	case <-done:
+	case <-time.After(3 * time.Second):
+		// connections the client lost track of stay open until the peers' deadlines; they are not needed any more
+	}
+	if !ok && len(panics) == 0 {
+		return nil
+	}
+	nw.mu.Lock()
+	defer nw.mu.Unlock()
+	var trace []string
+	for i, c := range nw.conns {
+		trace = append(trace, fmt.Sprintf("conn%d{%s tls=%v first=%q %v}", i, c.addr, c.tls, c.first, c.paths))
+	}
+	detail := strings.Join(trace, " ") + " errors=" + strings.Join(errs, "; ")
+	type carried struct {
+		r    reqInfo
+		conn int
+	}
+	var cs []carried
+	for _, r := range sentReqs {
+		if ci := nw.carrier(r.path); ci >= 0 {
+			cs = append(cs, carried{r, ci})
+		}
+	}
+	conns := append([]*c21ConnRec(nil), nw.conns...)
+	return &Case{Impl: detail, Nontrivial: len(cs) >= 3, Tags: []string{"idle-" + f[0] + f[5]}, Judge: func([]string) Verdict {
+		for _, c := range cs {
+			k := conns[c.conn]
+			if c.r.https && !k.tls {
+				return Verdict{VSpec, "https-over-plaintext", fmt.Sprintf("https request %s for %s was written to plaintext connection %d (%s): %s", c.r.path, c.r.addr, c.conn, k.addr, detail)}
+			}
+			if !c.r.https && k.tls {
+				return Verdict{VSpec, "http-on-https-connection", fmt.Sprintf("http request %s for %s was written to TLS connection %d (%s): %s", c.r.path, c.r.addr, c.conn, k.addr, detail)}
+			}
+			if k.addr != c.r.addr {
+				return Verdict{VSpec, "request-to-other-host", fmt.Sprintf("request %s for %s was written to a connection dialled for %s: %s", c.r.path, c.r.addr, k.addr, detail)}
+			}
+		}
+		for ci, k := range conns {
+			if k.addr == map[bool]string{true: sideAddr, false: otherAddr}[sideTLS] && k.gotByte && len(k.first) > 0 && k.first[0] != 0x16 {
+				return Verdict{VSpec, "tls-hostclient-wrote-plaintext", fmt.Sprintf("connection %d dialled for the TLS address %s received %q in the clear: %s", ci, k.addr, k.first, detail)}
+			}
+		}
+		if len(panics) > 0 {
+			return Verdict{VSpec, "impl-panic", fmt.Sprintf("the client panicked: %s: %s", strings.Join(panics, "; "), detail)}
+		}
+		return Ok()
+	}}
+}
+
 func init() {
 	Register(&Prop{
 		ID: "C21",
@@ -801,6 +1149,8 @@ func init() {
 			switch kind {
 			case "ops":
 				return c21Ops(a)
+			case "idle":
+				return c21Idle(a)
 			case "addmissingport":
 				if len(a) != 2 || len(a[1]) != 1 {
 					return nil
@@ -881,6 +1231,9 @@ func init() {
 						s += fmt.Sprintf("%d ", r.Intn(nh))
 					}
 					args = append(args, B(s+strings.Join(hs, " > ")))
+					if r.Chance(6) {
+						args = append(args, B("K"))
+					}
 					// the same call again, 1..3 more times in a row (what the first call left behind must not change the routing)
 					if r.Chance(30) {
 						for k := 1 + r.Intn(3); k > 0 && j < nops; k-- {
@@ -890,6 +1243,14 @@ func init() {
 					}
 				}
 				emit("ops", args...)
+			}
+			ni := 60
+			if tier == "thorough" {
+				ni = 600
+			}
+			for i := 0; i < ni; i++ {
+				nn := 2 + r.Intn(4)
+				emit("idle", B(fmt.Sprintf("%c %d %d %d %d %c %d", "TP"[r.Intn(2)], nn, 1+r.Intn(nn), r.Intn(4), 1+r.Intn(4), "CH"[r.Intn(2)], r.Intn(2))))
 			}
 			for i := 0; i < n; i++ {
 				a := r.Pick([]string{"a.test", "a.test:80", ":80", "", "[::1]", "[::1]:80", "[::1", "::1", "a:b:c", "a.test:", "[", "]", "x]"})
